@@ -73,6 +73,7 @@ func main() {
 		concLimit  = flag.Int("conc-limit", 0, "explore only the K smallest feasible values of each symbolic size/offset (0 = all)")
 		loopCut    = flag.String("loop-cut", "", "Func=N: prune paths that visit a block of a function whose name contains Func more than N times in one activation")
 		tags       = flag.String("tags", "", "comma separated tags enabling //verif:stub-if <tag> directives")
+		tier       = flag.String("tier", "quick", "quick or thorough (selects verif_bound values)")
 		list       = flag.Bool("list", false, "list harness entry functions (H_*) and exit")
 	)
 	flag.Parse()
@@ -220,6 +221,7 @@ func main() {
 			loopBound:          *loopBound,
 			maxSteps0:          *pathSteps,
 			trace:              *trace,
+			thorough:           *tier == "thorough",
 			mutexes:            map[*value]*mutexState{},
 			onces:              map[*value]bool{},
 			syncMaps:           map[*value]*omap{},
